@@ -412,6 +412,12 @@ func (api *API) routes() []route {
 			"/pins",
 			api.statusAllHandler,
 		},
+		{ // before Recover: POST /pins/ipns/recover is a path, a CID never matches keyType
+			"PinPath",
+			"POST",
+			"/pins/{keyType:ipfs|ipns|ipld}/{path:.*}",
+			api.pinPathHandler,
+		},
 		{
 			"Recover",
 			"POST",
@@ -435,12 +441,6 @@ func (api *API) routes() []route {
 			"POST",
 			"/pins/{hash}",
 			api.pinHandler,
-		},
-		{
-			"PinPath",
-			"POST",
-			"/pins/{keyType:ipfs|ipns|ipld}/{path:.*}",
-			api.pinPathHandler,
 		},
 		{
 			"Unpin",
